@@ -9,6 +9,8 @@
 //! * H4 `enter_format` - number of `format_expr_impl` invocations (work done by the formatter)
 //! * H5 `on_env_insert` - log of `Environment::insert` calls that replaced an existing binding of the
 //!   same scope (only while recording)
+//! * H7 `BLOTS_VERIF_EVAL_BUDGET` - a step budget read from the environment by H1: the process exits with
+//!   status 97 once more expressions than that have been entered (off unless the variable is set)
 //! * H6 `on_driver_result` - the text a host driver (blots-wasm `format_blots`) is about to hand to its
 //!   host, so that the real driver can be exercised on a native target where the hand-over itself
 //!   is not available
@@ -34,6 +36,7 @@ thread_local! {
     static MAX_CALL_DEPTH: Cell<usize> = const { Cell::new(0) };
     static EVAL_ENTRIES: Cell<u64> = const { Cell::new(0) };
     static LOG_PATH: RefCell<Option<Option<String>>> = const { RefCell::new(None) };
+    static EVAL_BUDGET: RefCell<Option<Option<u64>>> = const { RefCell::new(None) };
     static FORMAT_CALLS: Cell<u64> = const { Cell::new(0) };
     static ENV_OVERWRITES: RefCell<Vec<(usize, String)>> = const { RefCell::new(Vec::new()) };
     static DRIVER_RESULTS: RefCell<Vec<(String, String)>> = const { RefCell::new(Vec::new()) };
@@ -137,6 +140,16 @@ fn log_path() -> Option<String> {
     })
 }
 
+fn eval_budget() -> Option<u64> {
+    EVAL_BUDGET.with(|p| {
+        let mut p = p.borrow_mut();
+        if p.is_none() {
+            *p = Some(std::env::var("BLOTS_VERIF_EVAL_BUDGET").ok().and_then(|v| v.parse().ok()));
+        }
+        p.unwrap()
+    })
+}
+
 /// H1: called at the top of `evaluate_ast`.
 #[inline(never)]
 pub fn enter_eval(call_depth: usize) {
@@ -152,7 +165,19 @@ pub fn enter_eval(call_depth: usize) {
             l.set(addr);
         }
     });
-    EVAL_ENTRIES.with(|e| e.set(e.get() + 1));
+    let entries = EVAL_ENTRIES.with(|e| {
+        e.set(e.get() + 1);
+        e.get()
+    });
+    // H7: a logical-step watchdog for process-level monitors. With BLOTS_VERIF_EVAL_BUDGET=<n> in the
+    // environment the process reports and exits with status 97 once more than n expressions have been
+    // entered, so that "does not end" is decided on steps, not on wall-clock time.
+    if let Some(budget) = eval_budget() {
+        if entries > budget {
+            eprintln!("VERIF-EVAL-BUDGET-EXHAUSTED entries={} call_depth={}", entries, call_depth);
+            std::process::exit(97);
+        }
+    }
     let new_max = MAX_CALL_DEPTH.with(|m| {
         if call_depth > m.get() {
             m.set(call_depth);
